@@ -1,2 +1,64 @@
-From GB Require Import HTree.
-Example C08_placeholder : True. Proof. exact I. Qed.
+(* C08 -- the merkle tree listing is an exact, history-independent function of content.
+   Property theorems only; proofs live in proofs/HTreeProofs.v. *)
+From Coq Require Import NArith ZArith List Bool Sorting.Permutation.
+From GB Require Import Consts Words KeyPath HTree CheckC08 HTreeProofs.
+Import ListNotations.
+Open Scope N_scope.
+
+(* (1) The incrementally maintained leaf-level summaries are EXACT: for ALL tree shapes (depth, height 1..8)
+   and ALL sequences of HTree.set / HTree.remove (the very fold the correspondence check runs) over any set
+   hs of key hashes that do not alias inside the tree (same leaf and same stored low bytes imply the same
+   bits 32..47), every leaf node's count is the number of live items in its leaf mod 2^32 and its hash is
+   sum over live items of vhash * uint16(keyhash >> 32) mod 2^16 -- functions of the leaf's CURRENT items
+   only; the stored truncated hashes stay distinct and value hashes stay 16-bit. *)
+Theorem C08_leaf_summaries : forall d h ops hs, (1 <= h <= 8)%nat ->
+  (forall o, In o ops -> top_ok o /\ In (top_hash o) hs) -> alias_free (new_tree d h) hs ->
+  LInv (Gof (new_tree d h) hs) (fold_left apply_top ops (new_tree d h)).
+Proof. exact leaf_summaries. Qed.
+Print Assumptions C08_leaf_summaries.
+
+(* (2) HISTORY INDEPENDENCE at leaf level: two trees that satisfy (1) and hold the same items in every leaf,
+   in any order -- whatever permutations, redundant overwrites, deletes and re-sets produced them -- have
+   identical leaf-node counts and hashes. *)
+Theorem C08_leaf_history_independent : forall G t t', LInv G t -> LInv G t' -> t_height t' = t_height t ->
+  (forall lo, Permutation (get_leaf t lo) (get_leaf t' lo)) ->
+  forall lo, lo < 4294967296 ->
+    n_count (get_node t (t_height t - 1) lo) = n_count (get_node t' (t_height t' - 1) lo) /\
+    n_hash (get_node t (t_height t - 1) lo) = n_hash (get_node t' (t_height t' - 1) lo).
+Proof. exact leaf_history_independent. Qed.
+Print Assumptions C08_leaf_history_independent.
+
+(* the uint16 / uint32 bookkeeping of setToLeaf is exact: replacing a live item of value hash vo by one of
+   value hash vn moves the 16-bit node hash from S to S - vo*g + vn*g *)
+Theorem C08_hash_update_exact : forall S vo vn g, vo < 65536 -> vo * g <= S ->
+  w16 (S mod 65536 + w16 (w16 (vn + 65536 - vo) * g)) = (S - vo * g + vn * g) mod 65536.
+Proof. exact hash_update. Qed.
+Print Assumptions C08_hash_update_exact.
+
+(* non-vacuity: two histories with equal final content (B overwrites, deletes and re-sets) over hashes in one
+   leaf and in different leaves; both satisfy the hypotheses of (1); their leaf summaries agree *)
+Definition ex8_ha : N := 1311768467463790320.    (* 0x123456789abcdef0 *)
+Definition ex8_hb : N := 1311768467463794415.    (* 0x123456789abceeef: same leaf for height 3, other low bytes *)
+Definition ex8_hc : N := 11068046444225730969.   (* 0x9999999999999999 *)
+Definition ex8_opsA : list top := [TSet ex8_ha 1 100 0 0; TSet ex8_hb 2 200 0 256; TSet ex8_hc 1 7 1 0].
+Definition ex8_opsB : list top :=
+  [TSet ex8_hc 5 9 0 512; TSet ex8_hb 1 1 0 0; TSet ex8_ha 1 100 0 0; TRem ex8_hc (-1) 0; TSet ex8_hb 2 200 0 256; TSet ex8_hc 1 7 1 0].
+
+Example C08_nonvacuous :
+  let hs := [ex8_ha; ex8_hb; ex8_hc] in
+  let ta := fold_left apply_top ex8_opsA (new_tree 0 3) in
+  let tb := fold_left apply_top ex8_opsB (new_tree 0 3) in
+  alias_free (new_tree 0 3) hs /\
+  (forall o, In o (ex8_opsA ++ ex8_opsB) -> top_ok o /\ In (top_hash o) hs) /\
+  leaf_offset ta ex8_ha = leaf_offset ta ex8_hb /\
+  snd (tree_update ta) = snd (tree_update tb) /\ n_count (snd (tree_update ta)) = 3.
+Proof.
+  cbv zeta. split; [|split; [|split; [|split]]].
+  - intros h1 h2 H1 H2. cbn [In] in H1, H2.
+    destruct H1 as [<-|[<-|[<-|[]]]]; destruct H2 as [<-|[<-|[<-|[]]]]; vm_compute; intros E1 E2; try reflexivity; try discriminate.
+  - intros o Ho. cbn [app ex8_opsA ex8_opsB In] in Ho.
+    repeat (destruct Ho as [<-|Ho]; [split; [vm_compute; reflexivity || exact I|cbn; tauto]|]); destruct Ho.
+  - vm_compute. reflexivity.
+  - vm_compute. reflexivity.
+  - vm_compute. reflexivity.
+Qed.
